@@ -503,6 +503,10 @@ class Run:
                 return v.selfv
             if name == "__func__":
                 return v.func
+            if isinstance(v.func, VNative):
+                if hasattr(v.func.obj, name):
+                    return lift(getattr(v.func.obj, name))
+                self.throw(AttributeError, f"'method' object has no attribute '{name}'")
         if isinstance(v, VFunc):
             if name == "__name__":
                 return VStr(str, v.name)
